@@ -386,6 +386,16 @@ func c20Exec(raw json.RawMessage) Result {
 		if (ferr == nil) != (err == nil) || fl != l {
 			o = bad("C20:flag-disagrees", "Set(%q) = %v,%v but UnmarshalText gives %v,%v", t, fl, ferr, l, err)
 		}
+		// zap.LevelFlag: a flag on the process's flag set whose default is the current level; rejected text must leave it alone
+		c20FlagSeq++
+		fname := fmt.Sprintf("zvlevel%d", c20FlagSeq)
+		if op.Cur >= -1 && op.Cur <= 5 {
+			lf := zap.LevelFlag(fname, zapcore.Level(op.Cur), "level")
+			lferr := flag.Set(fname, string(t))
+			if (lferr == nil) != (err == nil) || *lf != l {
+				o = bad("C20:levelflag-disagrees", "zap.LevelFlag (default %d) set to %q = %v,%v but UnmarshalText gives %v,%v", op.Cur, t, *lf, lferr, l, err)
+			}
+		}
 		if utf8.Valid(t) {
 			jl := zapcore.Level(op.Cur)
 			q, _ := json.Marshal(string(t))
@@ -520,6 +530,8 @@ type c20DeafWriter struct{ h http.Header }
 func (w *c20DeafWriter) Header() http.Header       { return w.h }
 func (w *c20DeafWriter) WriteHeader(int)           {}
 func (w *c20DeafWriter) Write([]byte) (int, error) { return 0, io.ErrClosedPipe }
+
+var c20FlagSeq int
 
 func shapeCap(s string) string {
 	if len(s) > 24 {
